@@ -91,9 +91,11 @@ def replay_case(o):
 
 
 def search_cases(o, seed):
-    return [{"prop": PROP, "kind": "sweep", "inputs": {"seed": seed, "n": 1500}}, {"prop": PROP, "kind": "repeats", "inputs": {"seed": seed, "n": 150}}]
+    return [{"prop": PROP, "kind": "sweep", "inputs": {"seed": seed, "n": 1500}}, {"prop": PROP, "kind": "repeats", "inputs": {"seed": seed, "n": 150}},
+            {"prop": PROP, "kind": "stale", "inputs": {"seed": seed, "n": 60}}]
 
 
 def native_cases(tier, seed):
     return [{"prop": PROP, "kind": "sweep", "inputs": {"seed": seed, "n": 1500 if tier == "quick" else 40000}},
-            {"prop": PROP, "kind": "repeats", "inputs": {"seed": seed, "n": 150 if tier == "quick" else 5000}}]
+            {"prop": PROP, "kind": "repeats", "inputs": {"seed": seed, "n": 150 if tier == "quick" else 5000}},
+            {"prop": PROP, "kind": "stale", "inputs": {"seed": seed, "n": 60 if tier == "quick" else 2000}}]
